@@ -343,6 +343,32 @@ func ownedByFirstKey(root *gen.YN, path []string, comment string) bool {
 	return false
 }
 
+// nodeAt follows a path of the harness's step encoding.
+func nodeAt(root *gen.YN, path []string) *gen.YN {
+	n := root
+	for _, st := range path {
+		var next *gen.YN
+		switch n.K {
+		case gen.YMap:
+			for j, k := range n.Keys {
+				if k.S == st {
+					next = n.Vals[j]
+				}
+			}
+		case gen.YSeq:
+			var idx int
+			if _, err := fmt.Sscanf(st, "\x00#%d", &idx); err == nil && idx < len(n.Elem) {
+				next = n.Elem[idx]
+			}
+		}
+		if next == nil {
+			return nil
+		}
+		n = next
+	}
+	return n
+}
+
 // onLastBranch: the path leads to (or into) the last leaf of the document.
 func onLastBranch(root *gen.YN, path []string) bool {
 	n := root
@@ -520,10 +546,20 @@ func check(c Case) hx.Verdict {
 				// last node of the document as its foot comment, and goes away with that node
 				sig = "deviant:trailing-comment-owned-by-last-node"
 			}
-			if sig == "" && c.Kind == "delete" && ownedByFirstKey(c.Doc.Root, c.Path, want) {
-				// known finding, same root: the head comment of a sequence item that is a block map is attached
-				// to the map's first key, and goes away when that key is deleted
-				sig = "deviant:trailing-comment-owned-by-last-node"
+			if sig == "" && (c.Kind == "delete" || c.Kind == "replace_scalar" || c.Kind == "replace_tree" || c.Kind == "multi") {
+				// known finding, same root: the head comment of a sequence item that is a block map / block sequence is
+				// attached to the first key / first leaf inside it, and goes away when that node is deleted or replaced
+				path := c.Path
+				if c.Kind == "multi" {
+					if tn := nodeAt(c.Doc.Root, c.Path); tn != nil && tn.K == gen.YMap && len(tn.Keys) > 0 {
+						path = append(append([]string{}, c.Path...), tn.Keys[0].S)
+					} else {
+						path = append(append([]string{}, c.Path...), "\x00#0")
+					}
+				}
+				if ownedByFirstKey(c.Doc.Root, path, want) {
+					sig = "deviant:trailing-comment-owned-by-last-node"
+				}
 			}
 			return hx.Bad(sig, "comment %q of a node outside the target is gone (or out of order): u=%s\ninput:\n%s\n`yq .`:\n%s\n`yq u`:\n%s", want, c.Update, c.Text, base.Out, upd.Out)
 		}
